@@ -529,6 +529,7 @@ int main(int argc, char **argv)
 #else
     mc_init("C01", argc, argv);
 #endif
+    libast_debug_level = (unsigned) mc_dlevel();        /* --dlevel=N: the whole run at runtime debug level N (default 0) */
     L = (int) mc_arg_int("L", mc_thorough() ? 5 : 3);
     NS = (int) mc_arg_int("sigma", mc_thorough() ? 4 : 3);
     memcpy(SIG, "aB 7", 4); SIG[NS] = 0;
